@@ -142,6 +142,8 @@ func c19Run(r *Run, reg string, depth, shard, shards int) {
 		menu = append(menu,
 			Act("updateSignatureThreshold(2) by A1", &cctptypes.MsgUpdateSignatureThreshold{From: AttMgr.Str, Amount: 2}),
 			Act("updateMaxMessageBodySize(50) by A0", &cctptypes.MsgUpdateMaxMessageBodySize{From: Owner.Str, MessageSize: 50}),
+			Act("updateMaxMessageBodySize(0) by A0", &cctptypes.MsgUpdateMaxMessageBodySize{From: Owner.Str, MessageSize: 0}),
+			Act("unpauseBurningAndMinting by A2", &cctptypes.MsgUnpauseBurningAndMinting{From: Pauser.Str}),
 			Act("pauseBurningAndMinting by A2", &cctptypes.MsgPauseBurningAndMinting{From: Pauser.Str}),
 			Act("updatePauser(A6) by A0", &cctptypes.MsgUpdatePauser{From: Owner.Str, NewPauser: Outsider.Str}),
 			MkSend(UserA.Str, DomEth, distinct32(0x21), []byte("a")),
@@ -191,6 +193,13 @@ func c19Run(r *Run, reg string, depth, shard, shards int) {
 			next.Owner, next.AttMgr, next.Pauser, next.TokenCtl, next.Pending, next.HasPending = cur.Owner, cur.AttMgr, cur.Pauser, cur.TokenCtl, cur.Pending, cur.HasPending
 			next.BurnPaused, next.SendPaused, next.MaxBody, next.NextNonce, next.Threshold, next.HasThreshold = cur.BurnPaused, cur.SendPaused, cur.MaxBody, cur.NextNonce, cur.Threshold, cur.HasThreshold
 			post.Model = next
+			// ... except that the scalar a successful transaction has just set is the current value,
+			// and its query must answer with it
+			if o.OK {
+				if why := c19ScalarJustSet(w, &a); why != "" {
+					r.Violate("C19 scalar query does not return the value a successful transaction set", fmt.Sprintf("after %v: %s", descs(post.Path), why), rp("", why))
+				}
+			}
 			if errs := CheckQueries(w, next, u); len(errs) > 0 {
 				r.Violate("C19 queries disagree with the history: "+firstWords(errs[0], 3),
 					fmt.Sprintf("after %v (%s):\n %s", descs(post.Path), o.Class(), joinMax(errs, 6)), rp(next.String(), joinMax(errs, 6)))
@@ -282,4 +291,39 @@ func c19Enforced(p Pred) bool {
 		return false
 	}
 	return false
+}
+
+// c19ScalarJustSet: the value named by a transaction that has just succeeded must be what the
+// corresponding scalar query returns ("" if so, or if the transaction sets no scalar).
+func c19ScalarJustSet(w *World, a *Action) string {
+	msg, err := a.Decode()
+	if err != nil {
+		return ""
+	}
+	cctx, _ := w.ctx.CacheContext()
+	switch x := msg.(type) {
+	case *cctptypes.MsgUpdateMaxMessageBodySize:
+		q, err := w.K.MaxMessageBodySize(cctx, &cctptypes.QueryGetMaxMessageBodySizeRequest{})
+		if err != nil || q.Amount.Amount != x.MessageSize {
+			return fmt.Sprintf("max message body size set to %d, query answers %v %v", x.MessageSize, q, err)
+		}
+	case *cctptypes.MsgUpdateSignatureThreshold:
+		q, err := w.K.SignatureThreshold(cctx, &cctptypes.QueryGetSignatureThresholdRequest{})
+		if err != nil || q.Amount.Amount != x.Amount {
+			return fmt.Sprintf("signature threshold set to %d, query answers %v %v", x.Amount, q, err)
+		}
+	case *cctptypes.MsgPauseBurningAndMinting, *cctptypes.MsgUnpauseBurningAndMinting:
+		_, want := msg.(*cctptypes.MsgPauseBurningAndMinting)
+		q, err := w.K.BurningAndMintingPaused(cctx, &cctptypes.QueryGetBurningAndMintingPausedRequest{})
+		if err != nil || q.Paused.Paused != want {
+			return fmt.Sprintf("burning and minting paused set to %v, query answers %v %v", want, q, err)
+		}
+	case *cctptypes.MsgPauseSendingAndReceivingMessages, *cctptypes.MsgUnpauseSendingAndReceivingMessages:
+		_, want := msg.(*cctptypes.MsgPauseSendingAndReceivingMessages)
+		q, err := w.K.SendingAndReceivingMessagesPaused(cctx, &cctptypes.QueryGetSendingAndReceivingMessagesPausedRequest{})
+		if err != nil || q.Paused.Paused != want {
+			return fmt.Sprintf("sending and receiving paused set to %v, query answers %v %v", want, q, err)
+		}
+	}
+	return ""
 }
